@@ -18,6 +18,7 @@ class Rec(NodeBase):
     child = Instance(NodeBase)
     friend = Instance(NodeBase, copy="ref")
     children = List(Instance(NodeBase))
+    members = Set(Instance(NodeBase))      # hashable but mutable elements
     log = List(transient=True)
     total = Property(Int, observe="children.items.value")
 
